@@ -120,6 +120,8 @@ class _Session:
                 items.append(urwid.Button(f"b{i}"))
             elif kind == "check":
                 items.append(urwid.CheckBox(f"c{i}"))
+            elif kind == "popup":
+                items.append(self.build_launcher(i))
             else:
                 items.append(urwid.Divider("-"))
         self.status = urwid.Text("status")
@@ -136,13 +138,13 @@ class _Session:
             def keypress(self, size, key):
                 sess.point("keypress")
                 rv = super().keypress(size, key)
-                sess.calls.append(("keypress", key, rv, tuple(size)))
+                sess.calls.append(("keypress", key, rv, tuple(size), "base"))
                 return rv
 
             def mouse_event(self, size, event, button, col, row, focus):
                 sess.point("mouse")
                 rv = self._w.mouse_event(size, event, button, col, row, focus)
-                sess.calls.append(("mouse", (event, button, col, row), bool(rv), tuple(size)))
+                sess.calls.append(("mouse", (event, button, col, row), bool(rv), tuple(size), "base"))
                 return rv
 
             def render(self, size, focus=False):
@@ -151,6 +153,59 @@ class _Session:
                 return super().render(size, focus)
 
         return Rec(self.inner)
+
+    def build_launcher(self, i: int):
+        """A PopUpLauncher: key 'o' opens a pop-up (shown only when MainLoop was created with pop_ups=True),
+        key 'c' inside the pop-up closes it.  Both sides record what reaches them."""
+        import urwid  # noqa: PLC0415
+
+        sess = self
+
+        class PopRec(urwid.WidgetWrap):
+            _sizing = frozenset(["box"])
+
+            def __init__(self, launcher):
+                self.launcher = launcher
+                super().__init__(urwid.Filler(urwid.Edit("pop:", "")))
+
+            def selectable(self):
+                return True
+
+            def keypress(self, size, key):
+                sess.point("keypress")
+                if key == "c":
+                    sess.calls.append(("close",))
+                    self.launcher.close_pop_up()
+                    rv = None
+                else:
+                    rv = super().keypress(size, key)
+                sess.calls.append(("keypress", key, rv, tuple(size), "popup"))
+                return rv
+
+            def mouse_event(self, size, event, button, col, row, focus):
+                sess.point("mouse")
+                rv = self._w.mouse_event(size, event, button, col, row, focus)
+                sess.calls.append(("mouse", (event, button, col, row), bool(rv), tuple(size), "popup"))
+                return rv
+
+        class Launch(urwid.PopUpLauncher):
+            def __init__(self):
+                super().__init__(urwid.Button(f"p{i}"))
+
+            def keypress(self, size, key):
+                if key == "o":
+                    sess.calls.append(("open",))
+                    self.open_pop_up()
+                    return None
+                return super().keypress(size, key)
+
+            def create_pop_up(self):
+                return PopRec(self)
+
+            def get_pop_up_parameters(self):
+                return {"left": 0, "top": 1, "overlay_width": 12, "overlay_height": 3}
+
+        return Launch()
 
     # ------------------------------------------------------------------------------------
     def run(self) -> str:  # noqa: C901, PLR0912, PLR0915
@@ -481,8 +536,10 @@ class _Session:
         else:
             self.res.probe("restoration_checked")
 
-    def check_order(self) -> None:
-        """Clause 1 on the fault-free run: filter -> widget -> unhandled, batch by batch."""
+    def check_order(self) -> None:  # noqa: C901, PLR0911, PLR0912, PLR0915
+        """Clause 1 on the fault-free run: filter -> topmost widget -> unhandled, batch by batch.  The topmost
+        widget is the pop-up while one is shown (MainLoop created with pop_ups=True, opened by an EARLIER input
+        event - also one of the same batch) and the application's widget otherwise."""
         from urwid.command_map import Command, command_map  # noqa: PLC0415
 
         calls = [c for c in self.calls]
@@ -490,6 +547,8 @@ class _Session:
         n = len(calls)
         sent = b"".join(bytes.fromhex(e["hex"]) for e in self.scen["events"] if e["ev"] == "bytes") + b"\x1b[19~"
         raw_all = []
+        pop_shown = False  # model: a pop-up covers the application's widget
+        can_show = bool(self.scen["config"].get("pop_ups"))
         while i < n:
             c = calls[i]
             if c[0] == "clear":
@@ -504,23 +563,48 @@ class _Session:
             for key in keys_out:
                 if key == "window resize":
                     continue
-                if i >= n:
-                    self.violate("C12.1", "key-never-offered-to-widget", repr(key))
-                    return
-                c = calls[i]
-                if isinstance(key, str):
-                    if c[0] != "keypress" or c[1] != key:
-                        self.violate("C12.1", "widget-call-out-of-order", f"expected keypress {key!r}, got {c!r}")
-                        return
-                    handled = not c[2]
-                    ukey = c[2]
+                # open/close markers are recorded by the handling widget before its own call record
+                marks = []
+                while i < n and calls[i][0] in ("open", "close"):
+                    marks.append(calls[i][0])
+                    i += 1
+                is_mouse = not isinstance(key, str)
+                c = calls[i] if i < n else None
+                if is_mouse and pop_shown and (c is None or c[0] != "mouse"):
+                    # a pointer event outside the pop-up: the overlay offers it to nobody and reports it unhandled
+                    handled, ukey = False, key
+                    self.res.probe("mouse_outside_open_popup")
                 else:
-                    if c[0] != "mouse" or tuple(c[1]) != tuple(key):
-                        self.violate("C12.1", "widget-call-out-of-order", f"expected mouse {key!r}, got {c!r}")
+                    if c is None:
+                        self.violate("C12.1", "key-never-offered-to-widget", repr(key))
                         return
-                    handled = bool(c[2])
-                    ukey = key
-                i += 1
+                    want_who = "popup" if pop_shown else "base"
+                    if not is_mouse:
+                        if c[0] != "keypress" or c[1] != key:
+                            self.violate("C12.1", "widget-call-out-of-order", f"expected keypress {key!r}, got {c!r}")
+                            return
+                        handled = not c[2]
+                        ukey = c[2]
+                    else:
+                        same = tuple(c[1]) == tuple(key) if c[0] == "mouse" and c[4] == "base" else c[0] == "mouse" and tuple(c[1][:2]) == tuple(key[:2])
+                        if not same:
+                            self.violate("C12.1", "widget-call-out-of-order", f"expected mouse {key!r}, got {c!r}")
+                            return
+                        handled = bool(c[2])
+                        ukey = key
+                    if c[4] != want_who:
+                        self.violate("C12.1", f"input-not-routed-to-topmost-widget:{c[4]}-instead-of-{want_who}", f"{key!r} went to the {c[4]} widget while the topmost widget was the {want_who} one; call {c!r}")
+                        return
+                    if pop_shown:
+                        self.res.probe("input_routed_to_open_popup")
+                    i += 1
+                for m in marks:
+                    if m == "open" and can_show:
+                        if not pop_shown:
+                            self.res.probe("popup_opened")
+                        pop_shown = True
+                    elif m == "close":
+                        pop_shown = False
                 if handled:
                     if i < n and calls[i][0] == "unhandled" and calls[i][1] == key:
                         self.violate("C12.1", "unhandled-called-for-handled-input", repr(key))
@@ -548,6 +632,7 @@ class _Session:
 KEYS = {
     "a": "61", "z": "7a", "B": "42", "up": "1b5b41", "down": "1b5b42", "enter": "0d", "tab": "09", "f5": "1b5b31357e",
     "ctrl l": "0c", "left": "1b5b44", "right": "1b5b43", "page down": "1b5b367e", "esc-a": "1b61", "backspace": "7f", "e-acute": "c3a9",
+    "o": "6f", "c": "63",
 }  # fmt: skip
 
 
@@ -580,7 +665,7 @@ class SessionEngine(Engine):
         "real": ["MainLoop", "_posix_raw_display.Screen", "six event loops", "widgets (Frame/ListBox/Edit/Button/...)", "PopUpTarget"],
         "stub": ["tty + termios list", "resize socket pair", "os.pipe for watch_pipe", "selectors/poller/asyncio step/trio fd wait", "clock", "terminal (RefTerm)"],
     }
-    required_probes = ("restoration_checked", "order_checked", "redraw_checked_at_wait", "block_with_resize_pending")
+    required_probes = ("restoration_checked", "order_checked", "redraw_checked_at_wait", "block_with_resize_pending", "popup_opened", "input_routed_to_open_popup")
     selftest_n = 240
     reducible = ("events",)
 
@@ -599,10 +684,12 @@ class SessionEngine(Engine):
             "termios": rng.randrange(4),
             "handlers": [rng.choice(["default", "default", "ignore", "func"]) for _ in range(3)],
             "tiebreak": [rng.randrange(4) for _ in range(8)],
-            "items": [rng.choice(["edit", "text", "button", "check", "div"]) for _ in range(rng.randint(1, 5))],
+            "items": [rng.choice(["edit", "text", "button", "check", "div", "popup"]) for _ in range(rng.randint(1, 5))],
             "extra_idle": rng.random() < 0.3,
             "outbuf": rng.choice([0, 0, 256, 1 << 16]),
         }
+        if rng.random() < 0.35:
+            cfg["items"][0] = "popup"  # the launcher has the focus from the start
         events = []
         t = 0.125
         n = rng.randint(2, 12)
@@ -612,6 +699,8 @@ class SessionEngine(Engine):
             r = rng.random()
             if r < 0.45:
                 name = rng.choice(list(KEYS))
+                if cfg["items"][0] == "popup" and rng.random() < 0.3:
+                    name = rng.choice(["o", "o", "c"])
                 hx = KEYS[name]
                 if len(hx) > 2 and rng.random() < 0.3:
                     cut = rng.randrange(1, len(hx) // 2) * 2
